@@ -16,5 +16,7 @@ AllOrNothing == [][(inp'.k = "SetEC" /\ out'.reply # Ack("0")) => st' = st]_vars
 AlarmReportIffEnabledChange ==
   [][inp'.k = "SetAlarm" =>
        (out'.s5f1 # <<>> <=> (st.al[inp'.a].set # inp'.on /\ st.al[inp'.a].en))]_vars
-ReadsChangeNothing == [][inp'.k \in {"ReadSV", "ListSV", "ReadEC", "ListEC", "ListAlarms", "ListEnabled"} => st' = st]_vars
+(* an alarm that is set is listed as set whether or not it is enabled (S5F5 and the AlarmsSet variable agree)  *)
+SetListsAgree == [][inp'.k = "ReadAlarmSVs" => out'.reply[2].b = AlStr({a \in AL : st.al[a].set})]_vars
+ReadsChangeNothing == [][inp'.k \in {"ReadSV", "ReadAlarmSVs", "ListSV", "ReadEC", "ListEC", "ListAlarms", "ListEnabled"} => st' = st]_vars
 =============================================================================
